@@ -422,6 +422,14 @@ func mkSubstr(s, off, n *Term) *Term {
 	if n.IsConst() && n.Int64() == 0 {
 		return mkStr("")
 	}
+	// a prefix of a concatenation whose length is syntactically the length of leading pieces
+	if s.Op == "str.++" && off.IsConst() && off.Int64() == 0 {
+		for k := 1; k < len(s.Args); k++ {
+			if n == mkLen(mkConcat(s.Args[:k]...)) {
+				return mkConcat(s.Args[:k]...)
+			}
+		}
+	}
 	// slicing a concatenation at piece boundaries with constant offsets
 	if s.Op == "str.++" && off.IsConst() {
 		parts := s.Args
@@ -456,6 +464,33 @@ func mkFromInt(i *Term) *Term {
 	return mkApp("str.from_int", SStr, i)
 }
 
+// cmpLeading compares two string terms on their leading constant pieces:
+// -1 / +1 if the order is decided by a differing byte inside both constant prefixes, 0 otherwise.
+func cmpLeading(a, b *Term) int {
+	pa, pb := concatParts(a), concatParts(b)
+	// strip identical leading pieces
+	for len(pa) > 0 && len(pb) > 0 && pa[0] == pb[0] {
+		pa, pb = pa[1:], pb[1:]
+	}
+	if len(pa) == 0 || len(pb) == 0 || !pa[0].IsConst() || !pb[0].IsConst() {
+		return 0
+	}
+	x, y := pa[0].S, pb[0].S
+	n := len(x)
+	if len(y) < n {
+		n = len(y)
+	}
+	for i := 0; i < n; i++ {
+		if x[i] != y[i] {
+			if x[i] < y[i] {
+				return -1
+			}
+			return 1
+		}
+	}
+	return 0
+}
+
 func mkStrLt(a, b *Term) *Term {
 	if a.IsConst() && b.IsConst() {
 		return mkBool(a.S < b.S)
@@ -463,17 +498,20 @@ func mkStrLt(a, b *Term) *Term {
 	if a == b {
 		return tFalse
 	}
+	if c := cmpLeading(a, b); c != 0 {
+		return mkBool(c < 0)
+	}
+	if a.IsConst() && a.S == "" {
+		return mkNot(mkEq(b, a))
+	}
+	if b.IsConst() && b.S == "" {
+		return tFalse
+	}
 	return mkApp("str.<", SBool, a, b)
 }
 
 func mkStrLe(a, b *Term) *Term {
-	if a.IsConst() && b.IsConst() {
-		return mkBool(a.S <= b.S)
-	}
-	if a == b {
-		return tTrue
-	}
-	return mkApp("str.<=", SBool, a, b)
+	return mkNot(mkStrLt(b, a))
 }
 
 func mkPrefixOf(p, s *Term) *Term {
@@ -899,7 +937,7 @@ func (t *Term) collect(vars map[*Term]bool, ufs map[*Term]bool, seen map[*Term]b
 
 // termRange: cheap interval bound of an integer term (nil = unbounded on that side).
 func termRange(t *Term) (lo, hi *big.Int) {
-	big62 := new(big.Int).Lsh(big.NewInt(1), 62)
+	big62 := new(big.Int).Lsh(big.NewInt(1), 48) // no Go string is longer than 2^48 bytes
 	switch t.Op {
 	case "const":
 		return t.I, t.I
